@@ -3,7 +3,10 @@
 import json, os
 
 def st(k, n, **kw):
-    d = dict(k=k, n=n, ref0=dict(p="", g=""), cfg="", mand="", dflt="", desc="", iff="", keys=[], c=[], gs=[], ref=[], aug=[])
+    d = dict(k=k, n=n, ref0=dict(p="", g=""), cfg="", mand="", dflt="", desc="", iff="", keys=[], c=[], gs=[], ref=[], aug=[],
+             ty=dict(p="", n="", rng="", en=[]), units="", tds=[], et=dict(base="", rngs=[], en=[]))
+    if k in ("leaf", "leaflist") and "ty" not in kw:
+        d["ty"] = dict(p="", n="string", rng="", en=[])
     d.update(kw)
     return d
 
@@ -13,9 +16,11 @@ def lst(n, keys, *c, **kw): return st("list", n, keys=keys, c=list(c), **kw)
 def choice(n, *c, **kw): return st("choice", n, c=list(c), **kw)
 def case(n, *c, **kw): return st("case", n, c=list(c), **kw)
 def uses(g, p="", ref=(), aug=(), **kw): return st("uses", g, ref0=dict(p=p, g=g), ref=list(ref), aug=list(aug), **kw)
-def grouping(n, *c, gs=()): return dict(n=n, c=list(c), gs=list(gs))
-def module(name, prefix, body, gs=(), augs=(), includes=(), imports=(), sub=False, belongs=""):
-    return dict(name=name, prefix=prefix, sub=sub, belongs=belongs, gs=list(gs), body=list(body), augs=list(augs),
+def grouping(n, *c, gs=(), tds=()): return dict(n=n, c=list(c), gs=list(gs), tds=list(tds))
+def ty(n, p="", rng="", en=()): return dict(p=p, n=n, rng=rng, en=[dict(l=l, v=v) for l, v in en])
+def typedef(n, t, dflt="", units=""): return dict(n=n, ty=t, dflt=dflt, units=units)
+def module(name, prefix, body, gs=(), tds=(), augs=(), includes=(), imports=(), sub=False, belongs=""):
+    return dict(name=name, prefix=prefix, sub=sub, belongs=belongs, gs=list(gs), tds=list(tds), body=list(body), augs=list(augs),
                 includes=list(includes), imports=list(imports))
 
 seed1 = {"m": module("m", "m",
@@ -43,6 +48,37 @@ seed2 = {
     body=[cont("fromsub", uses("sg"), leaf("t"))]),
   "lib": module("lib", "lb", [], gs=[grouping("lg", leaf("la"), cont("lc", leaf("lb1")))]),
 }
+
+# C02: typedef chains, scopes, reuse
+tseed1 = {"m": module("m", "m",
+    tds=[typedef("t1", ty("int32", rng="0..100"), dflt="5", units="u1"),
+         typedef("t2", ty("t1", rng="10..50")),
+         typedef("en", ty("enumeration", en=[("a", -1), ("b", 7), ("c", -1), ("d", 3), ("e", -1)]), dflt="b")],
+    gs=[grouping("g", leaf("x", ty=ty("t2", rng="20..30")), leaf("y", ty=ty("t2"), dflt="11", units="mine"), leaf("e", ty=ty("en")))],
+    body=[
+        cont("c1", uses("g")),
+        cont("c2", uses("g"), leaf("own", ty=ty("t1"))),
+        leaf("z", ty=ty("t1")),
+        leaf("s", ty=ty("string"), dflt="d", units="us"),
+        cont("inner", leaf("li", ty=ty("lt")), leaf("n", ty=ty("int32", rng="1..9"), dflt="4"),
+             tds=[typedef("lt", ty("uint8", rng="1..200"), dflt="3")]),
+    ])}
+
+tseed2 = {
+  "m": module("m", "m", includes=["s1"], imports=[dict(m="lib", p="lb")],
+    tds=[typedef("loc", ty("lt", p="lb"), units="here")],
+    body=[
+        cont("a", leaf("p", ty=ty("lt", p="lb")), leaf("q", ty=ty("loc"), dflt="9"), leaf("r", ty=ty("st"))),
+        cont("b", uses("lg", p="lb"), uses("sg")),
+    ]),
+  "s1": module("s1", "m", sub=True, belongs="m", imports=[dict(m="lib", p="lb")],
+    tds=[typedef("st", ty("int8", rng="-5..5"), dflt="1", units="sub-units")],
+    gs=[grouping("sg", leaf("sl", ty=ty("st")), leaf("sl2", ty=ty("loc")))],
+    body=[cont("fromsub", uses("sg"))]),
+  "lib": module("lib", "lb", [], tds=[typedef("lt", ty("uint16", rng="1..1000"), dflt="80", units="ports")],
+                gs=[grouping("lg", leaf("la", ty=ty("lt")), leaf("lb1", ty=ty("string")))]),
+}
+json.dump([tseed1, tseed2], open(os.path.join(os.path.dirname(os.path.abspath(__file__)), "..", "spec", "yangtypeseeds.json"), "w"), indent=0)
 
 out = os.path.join(os.path.dirname(os.path.abspath(__file__)), "..", "spec", "yangseeds.json")
 json.dump([seed1, seed2], open(out, "w"), indent=0)
